@@ -117,9 +117,13 @@ def main():
         ran.append("git -C /repo checkout -- .")
     dst = os.path.join(ROOT, "seeded", name)
     os.makedirs(dst, exist_ok=True)
-    shutil.copy(patch, os.path.join(dst, "patch.diff"))
-    shutil.copy(demo, os.path.join(dst, "demo.rs"))
+    if os.path.abspath(src) != os.path.abspath(dst):
+        shutil.copy(patch, os.path.join(dst, "patch.diff"))
+        shutil.copy(demo, os.path.join(dst, "demo.rs"))
     meta2 = dict(meta)
+    if "detections" in meta and os.path.abspath(src) == os.path.abspath(dst):
+        # re-evaluation of a stored change: keep what earlier runs found under "earlier_detections"
+        meta2.setdefault("earlier_detections", []).append(meta["detections"])
     meta2["breaks_property"] = pid
     meta2["needs_to_manifest"] = meta.get("needs")
     meta2["confirmation"] = result
